@@ -41,7 +41,7 @@ MEMBERS = {"object": "fields", "interface": "fields", "enum": "values", "input":
 
 
 @st.composite
-def split_sdl(draw, spec, allow_empty_base=False):
+def split_sdl(draw, spec, allow_empty_base=False, omit=()):
     """-> dict(text, merged: Spec with members in merged order, base: Spec as if extensions were ignored, n_ext)"""
     merged = GS.Spec(json.loads(json.dumps(spec)))
     base = GS.Spec(json.loads(json.dumps(spec)))
@@ -51,7 +51,8 @@ def split_sdl(draw, spec, allow_empty_base=False):
         t = spec["types"][n]
         k = t["kind"]
         if k == "scalar":
-            blocks.append(_desc(draw, t.get("desc")) + "scalar %s" % n)
+            if n not in omit:   # omitted: the caller supplies an implementation through additional_types instead
+                blocks.append(_desc(draw, t.get("desc")) + "scalar %s" % n)
             continue
         mkey = MEMBERS[k]
         members = list(t[mkey])
